@@ -1032,6 +1032,13 @@ func corner() []Desc {
 func main() {
 	run := hx.ParseFlags("C04", "Check.C04")
 	for _, in := range run.Inputs() {
+		if in.Kind == "big" {
+			var b BigDesc
+			if err := json.Unmarshal(in.Raw, &b); err == nil {
+				run.Add(bigCase(b))
+			}
+			continue
+		}
 		var d Desc
 		if err := json.Unmarshal(in.Raw, &d); err == nil && d.Topo != "" {
 			for _, c := range makeCase(d) {
@@ -1052,7 +1059,16 @@ func main() {
 		maxVerts, maxTris = 8, 6
 	}
 	r := hx.NewRng(run.Seed)
+	// large synthetic meshes, spread between the generated cases (one evaluation shard each)
+	bigs := bigFamily(r.Fork(), run.Tier)
+	every := run.N/(len(bigs)+1) + 1
 	for i := 0; i < run.N; i++ {
+		if i%every == 0 && len(bigs) > 0 {
+			b := bigs[0]
+			bigs = bigs[1:]
+			run.Add(bigCase(b))
+			run.Count(fmt.Sprintf("big:tri=%v", b.Tri))
+		}
 		d := genDesc(r)
 		cs := makeCase(d)
 		c := cs[0]
@@ -1092,6 +1108,10 @@ func main() {
 		for _, x := range cs {
 			run.Add(x)
 		}
+	}
+	for _, b := range bigs {
+		run.Add(bigCase(b))
+		run.Count(fmt.Sprintf("big:tri=%v", b.Tri))
 	}
 	run.Finish()
 }
